@@ -19,6 +19,13 @@ theorem Step.storeRegistered (g : Gw) (id : UInt16) (n : Bytes) : Step Sn Mq E g
   Step.of_eq rfl rfl rfl
 theorem Step.clearBuffer (g : Gw) : Step Sn Mq E g g.clearBuffer := fun w =>
   ⟨Emits.of_outs_eq rfl, ⟨by simp [Gw.clearBuffer], w.2⟩⟩
+theorem Step.clearBufferUnlessAsleep (g : Gw) : Step Sn Mq E g g.clearBufferUnlessAsleep := by
+  unfold Gw.clearBufferUnlessAsleep
+  split
+  · exact Step.clearBuffer g
+  · exact Step.refl g
+theorem Step.snSendNow (g : Gw) (p : Pkt) (h : Sn p) : Step Sn Mq E g (g.snSendNow p) := fun w =>
+  ⟨Emits.emit g _ ⟨p, h, rfl⟩, w⟩
 theorem Step.startSleepPinger (g : Gw) (d : UInt16) : Step Sn Mq E g (g.startSleepPinger d) := Step.of_eq rfl rfl rfl
 
 @[simp] theorem newTopicId_buffer (g : Gw) : g.newTopicId.2.buffer = g.buffer := by
@@ -169,8 +176,8 @@ theorem Step.handlePingreq (S : Sites Sn Mq) (g : Gw) : Step Sn Mq E g g.handleP
 theorem Step.handleSleep (S : Sites Sn Mq) (g : Gw) (d : UInt16) : Step Sn Mq E g (g.handleSleep d) := by
   unfold Gw.handleSleep
   refine Step.trans ?_ (Step.setSt _ _)
-  refine Step.trans ?_ (Step.snSend _ _ none S.disconnect0)
-  refine Step.trans ?_ (Step.clearBuffer _)
+  refine Step.trans ?_ (Step.snSendNow _ _ S.disconnect0)
+  refine Step.trans ?_ (Step.clearBufferUnlessAsleep _)
   unfold Gw.maybeSleepPinger
   split
   · exact Step.startSleepPinger g d
